@@ -145,6 +145,8 @@ package client
 // the jar's object itself is only read.
 //@   atcall @fasthttp.AcquireCookie: copy-made-under-the-lock: held(cj.mu)
 //@   atcall @fasthttp.(*Cookie).CopyTo: fills-the-new-object-from-the-jars: held(cj.mu) && src == cookie && c == nc && c != cookie
+// (ground lemma for taken-stored-for-host: the cookie being copied is the i-th element of the jar's own list)
+//@   atcall @fasthttp.(*Cookie).CopyTo: source-is-the-ith-of-the-jars-list: 0 <= i && i < jarLen(cj, hostStr) && src == jarAt(cj, hostStr, i)
 //@   loop 1
 //@     invariant fresh-list: len(newCookies) <= i && i <= len(cookies) && cap(newCookies) == len(cookies) && arr(newCookies) != arr(cookies) && arr(newCookies) != 0 && off(newCookies) == 0
 //@     invariant taken-live-unpooled: !exists(j, 0, len(newCookies), newCookies[j] == nil || jcPooled[newCookies[j]] || !jcLive(jcExp[newCookies[j]], clockNow))
@@ -154,6 +156,10 @@ package client
 //@     invariant taken-distinct: !exists(j, 0, len(newCookies), exists(m, 0, j, newCookies[m] == newCookies[j] || srcOf(newCookies[m]) == srcOf(newCookies[j])))
 //@     invariant matching-taken: !exists(k, 0, i, pathMatch(str(path), jcPath[cookies[k]]) && !exists(j, 0, len(newCookies), srcOf(newCookies[j]) == cookies[k]))
 //@     invariant taken-from-purged: !exists(j, 0, len(newCookies), !exists(k, 0, i, srcOf(newCookies[j]) == cookies[k]))
+// (the postcondition only-stored-for-host in the loop's own vocabulary: the jar's list for the host IS the purged list -
+//  invariant purged-is-jar-list -, so the witness of taken-from-purged serves; stated as an invariant so that the
+//  postcondition follows from a clause of the same shape and does not depend on the solver finding the witness again)
+//@     invariant taken-stored-for-host: !exists(j, 0, len(newCookies), !exists(k, 0, jarLen(cj, hostStr), srcOf(newCookies[j]) == jarAt(cj, hostStr, k)))
 //@     invariant taken-are-not-the-jars: !exists(j, 0, len(newCookies), exists(k, 0, len(cookies), newCookies[j] == cookies[k]))
 // Lock discipline for the list itself: the cells of the jar's lists are written under the lock (the in-place
 // shift of purgeExpired), so a list that is read WITHOUT the lock must not be one of the jar's arrays.
